@@ -54,7 +54,7 @@ func build(s archSpec) (*procbuilder.Machine, error) {
 }
 
 var dynOps = []string{"rsets3", "rsets8", "rsets13", "addfps16f8", "multfps16f8", "divfps16f8", "addfps8f4", "multfxps16f8", "addfxps16f8", "divfxps16f8",
-	"callo8s", "calla8s", "ret8s", "callo4st", "ret4st", "push4t", "pull4t", "push16uu", "pull16uu"}
+	"callo8s", "calla8s", "ret8s", "callo4st", "ret4st", "push4t", "pull4t", "push16uu", "pull16uu", "addlqs8t1", "multlqs16t1", "divlqs8t1"}
 
 func allOpNames() []string {
 	var n []string
@@ -461,6 +461,9 @@ func main() {
 	logdir, clean := hx.Scratch("c03")
 	defer clean()
 	hx.SilenceStdout(filepath.Join(logdir, "lib.log"))
+	if err := gen.EnableLinearQuantizer(logdir); err != nil {
+		fmt.Fprintln(os.Stderr, "lq ranges:", err)
+	}
 	for _, d := range dynOps {
 		if gen.OpByName(d) == nil {
 			run.Inconclusive("dynamic-op-not-created:" + d)
